@@ -266,8 +266,11 @@ def main():
             "violations": violations,
         }
         os.makedirs(os.path.join(VERIF, "evidence"), exist_ok=True)
-        with open(os.path.join(VERIF, "evidence", pid + ".json"), "w") as f:
-            json.dump(ev, f, indent=1, default=str)
+        # a replay run re-executes one recorded case: it does not describe the property's exploration, so it does not
+        # overwrite the evidence file
+        if not replay:
+            with open(os.path.join(VERIF, "evidence", pid + ".json"), "w") as f:
+                json.dump(ev, f, indent=1, default=str)
         log("%s %s: obligations %d/%d, evaluations %d, streams %s, oracles %s, %.1fs" % (
             pid, tier, discharged, obligations, ctx.evaluations,
             {k: (v["cases"], v["disagreements"]) for k, v in ctx.streams.items()},
